@@ -7,6 +7,10 @@ ids = [p['id'] for p in props]
 TECH = "contract-based deductive verification: requires/ensures/invariant contracts on the real functions, verification conditions generated from go/ssa by vcgo, discharged by z3/cvc5"
 
 claimed = {
+ "C14": dict(
+   text="Proof that the VM encoder NewLine and the VM decoders are exact inverses for the opcode and the (up to two) symbol arguments: contracts give NewLine's output layout and each decoder's exact result, and lemma functions (real Go under the tag) that encode with the real NewLine and decode with the real opSplit/parseSym/parseTwoSym are verified for every opcode, every symbol of 1..255 bytes and every program prefix.",
+   note="Reduced: integer/size/signal encoding by NewLine's byteargs and the asm writers (bytes.Buffer based) are not yet under contract; disassembler text not covered. Trusted: vcgo translation, BigEndian stub, string theory axioms (extensionality instances), solvers.",
+   ref="4/C14"),
  "C15": dict(
    text="Proof, for every byte string, that the VM's instruction decoders (opSplit, instructionSplit, intSplit, parseSym/TwoSym/SymLen/SymSig/Sig) never panic (automatic bounds/nil obligations) and return nil error only when a complete, valid argument group was consumed (postconditions over the real code's SSA).",
    note="Trusted: vcgo's SSA-to-SMT translation, fmt.Errorf/encoding/binary stubs, lengths < 2^31, solver unsat answers. ParseAll/ToString (disassembler loop) not yet under contract.",
